@@ -10,9 +10,12 @@ def run(res, a):
             ("span", 20 if big else 5, 300), ("realloc", 10 if big else 3, 300), ("huge", 6 if big else 2, 40)]
     for sd in ([a.seed, a.seed + 1, a.seed + 2] if big else [a.seed]):
         apitrace.run_traces(res, "C12", plan, sd, dump=True, tag="" if sd == a.seed else "_s%d" % sd)
+    # mi_abandoned_visit_blocks: blocks left behind by terminated (virtual) threads, arena and OS-list segments
+    import conc
+    conc.run_conc(res, "C12", a.seed, a.tier, envs=[None, {"VERIF_NO_ARENA": "1"}])
     res.cov["rule"] = ("API traces (generators of tools/gen_trace.py: page fill/free cycles with hole patterns, class boundaries, several heaps, "
                        "large/huge single-block pages) on the real allocator; at every W op mi_heap_visit_blocks is compared with the shadow table "
                        "(every live block once, enclosing range, no freed block, area.used, early stop) and, per page, the visited block indices with "
                        "the Coq model's page_visit_blocks on the page state dumped before the walk. distinct = distinct traces")
     res.assumptions += ["single-threaded histories without pending cross-thread frees (remote lists are covered by the model theorems and by C08's checks)",
-                        "mi_abandoned_visit_blocks needs MI_VISIT_ABANDONED / option visit_abandoned and is exercised by the C09 check"]
+                        "mi_abandoned_visit_blocks is exercised at quiescence of the scheduler harness (mode exit, option visit_abandoned=1) for arena and OS-list segments"]
